@@ -227,10 +227,9 @@ class MonoTimer(object):
             duration in seconds (fractional)
         """
         self.retro = True if retro else False
-        self.start = None
-        self.stop = None
         self.latest = time.time()  # last time checked current time
-        self.restart(start=self.latest, duration=duration)
+        self.start = self.stop = self.latest  # numbers so update() can shift them
+        self.restart(duration=duration)  # starts at .latest as updated by restart
 
     def update(self):
         '''
@@ -296,7 +295,10 @@ class MonoTimer(object):
         """ Restarts timer at stop so no time lost
 
         """
-        return self.restart(start=self.stop)
+        self.update()  # apply any retrograde shift before reading .stop
+        self.start = self.stop  # may be negative when shifted so no abs
+        self.stop = self.start + self.duration
+        return (self.start, self.stop)
 
     def extend(self, extension=None):
         """ Extends timer duration for additional extension seconds (fractional).
@@ -307,12 +309,14 @@ class MonoTimer(object):
             effectively doubling the time
 
         """
+        self.update()  # apply any retrograde shift before keeping .start
         if extension is None: #otherwise extend by .duration or double
             extension = self.duration
 
-        duration = self.duration + extension
+        self.duration = abs(self.duration + extension) #must be non negative
+        self.stop = self.start + self.duration  # .start kept even when shifted negative
 
-        return self.restart(start=self.start, duration=duration)
+        return (self.start, self.stop)
 
 class StoreTimer(object):
     """ Class to manage relative Store based time.
